@@ -25,6 +25,7 @@ TARGETS = ['boltons.queueutils.BasePriorityQueue.add', 'boltons.queueutils.BaseP
            'boltons.listutils.BarrelList.index', 'boltons.listutils.BarrelList.__iter__']
 BOUNDS = {
     'quick': {'pre_state_adds': '0..4 distinct tasks', 'operations_after_pre_state': 2, 'priorities': 'symbolic ints in [-1000, 1000] or None',
+              'removal_histories': '5 adds with distinct symbolic priorities, any subset removed, optional re-add, drain',
               'sub_list_layouts': '_size_factor=1 splits, or 2 symbolic cut points over the flat content'},
     'thorough': {'pre_state_adds': '0..5', 'operations_after_pre_state': 3},
 }
@@ -201,6 +202,53 @@ def _script_body(n, none0, layout, c1, c2, script, ranks):
     return done(True, kind='multi' if multi else 'single', n=n, ops=names, layout=layout)
 
 
+# ---- removal-heavy histories: n adds with pairwise distinct symbolic priorities, then any subset removed
+def _removals_body(n, ranks, mask, readd):
+    hq, sq = HeapPriorityQueue(), SortedPriorityQueue()
+    sq._pq._size_factor = 1
+    M = Model()
+    qs = [hq, sq]
+    for i in range(n):
+        cl = step(qs, M, 'add_new', i, ranks[i])
+        if cl:
+            return fail('pre_' + cl)
+    removed = [i for i in range(n) if mask & (1 << i)]
+    for t in removed:
+        cl = step(qs, M, 'remove', t, None)
+        if cl:
+            return fail(cl, 'removing %r' % removed)
+        cl = step(qs, M, 'peek_default', None, None)
+        if cl:
+            return fail(cl, 'after removing %r' % removed)
+    if readd and removed:
+        cl = step(qs, M, 'readd', removed[0], ranks[n - 1])
+        if cl:
+            return fail(cl)
+    cl = drain(qs, M)
+    if cl:
+        return fail(cl, 'after removing %r of %d (priority ranks %r)' % (removed, n, ranks))
+    return done(True, kind='many_removed' if len(removed) >= 3 else 'few_removed', n=n, removed=removed)
+
+
+def pq_removals(n: int, p0: int, p1: int, p2: int, p3: int, p4: int, p5: int, mask: int, readd: int) -> bool:
+    """
+    pre: 0 <= n <= 6 and 0 <= mask <= 63 and 0 <= readd <= 1
+    post: _
+    """
+    n = cz(n, pinval('nmin', 0), pinval('nmax', 5))
+    low = pinval('masklow')
+    if low is not None:
+        assume(mask % 4 == low)
+    mask = cz(mask, 0, 2 ** n - 1)
+    readd = pin('readd', readd, 0, 1)
+    ps = [p0, p1, p2, p3, p4, p5][:n]
+    for i in range(n):
+        assume(-1000 <= ps[i] <= 1000)
+    ranks = order_labels(ps, strict=True)   # pairwise distinct priorities (ties are covered by pq_script)
+    with notrace():
+        return _removals_body(n, ranks, mask, readd)
+
+
 # ---- BarrelList itself against list (index translation), thorough tier
 def barrel_vs_list(n: int, c1: int, c2: int, op: int, i: int, sf: int) -> bool:
     """
@@ -298,4 +346,6 @@ def obligations(tier):
                 obs.append(Ob('pq_script', timeout=T, pins={'layout': 0, 'op1': op1, 'op2': op2, 'nmax': 4 - na, 'nops': 2, 'none_nmax': 1}))
     for op in range(6):
         obs.append(Ob('barrel_vs_list', timeout=T, pins={'op': op}))
+    for low in range(4):
+        obs.append(Ob('pq_removals', timeout=T, pins={'nmin': 5 if q else 0, 'nmax': 5 if q else 6, 'masklow': low, 'readd': low % 2}, need_kinds=('many_removed',)))
     return obs
